@@ -239,6 +239,37 @@ def run(chk):
     for fn, hits in prog.writers(repo, [MOD], "_frame_mask").items():
         if fn.name not in ("__init__", "_feed_data"):
             chk.violation("C12.mask", hits[0][0], K.short(hits[0][0]), f"writer {fn.qualname}", "the masking key is written outside the frame parser")
+    # ---- C12.fragpause: back-pressure applied inside an incomplete frame can be lifted without that frame completing -------------------
+    # The only other resume is in WebSocketDataQueue._read_from_buffer, which needs a *complete* message - which cannot arrive while paused.
+    pauses = [c for c in prog.calls_in(fdn.node) if norm.raw(c.func).endswith("pause_reading")]
+    qr = repo.func(MOD, "WebSocketDataQueue.read")
+    if pauses:
+        gq = cfg_of(qr.node)
+        waits = [n for n in gq.nodes if n.in_finally_copy is None and any(isinstance(a, ast.Await) and "_waiter" in norm.raw(a) for a in ast.walk(n.ast) if isinstance(n.ast, ast.AST))]
+        resumes = lambda n: K.node_has(n, "self._protocol.resume_reading()")
+        tests = [n for n in gq.nodes if n.kind == "test" and "_reading_paused" in norm.raw(n.ast)]
+        if waits and K.exprs(qr, "self._protocol.resume_reading()") and tests and gq.find_path(None, lambda n: n in waits, resumes, EXPLICIT, [(t, "T") for t in tests]) is None:
+            chk.ok("C12.fragpause", pauses[0], "reading paused inside an incomplete frame is resumed by a reader that is about to wait on the empty queue")
+        else:
+            chk.violation("C12.fragpause", pauses[0], K.short(pauses[0], 60), "a resume that does not need a complete message (e.g. in WebSocketDataQueue.read() before waiting)",
+                          "the fragment cap pauses the transport in the middle of a frame; the only resume needs a complete message, which can no longer arrive: one large frame delivered in many small reads (2-byte TCP segments) hangs receive() for ever and leaks the connection")
+    else:
+        chk.ok("C12.fragpause", fdn, "the frame parser never pauses the transport inside an incomplete frame")
+    # ---- C12.nofrag0: no empty fragment is retained ------------------------------------------------------------------------------------
+    # `had_fragments` is a byte count: an empty slice appended when a read ends right after the header leaves the list non-empty but the
+    # count 0, so the single-chunk path is taken and the list is never cleared - one leaked entry per message until the cap pauses reading
+    apps = [c for c in prog.calls_in(fdn.node) if norm.raw(c.func) == "self._payload_fragments.append"]
+    inc = [c for c in apps if PC.has_lit(PC.pc(c, raw=True), [("self._payload_bytes_to_read != 0", True), ("self._payload_bytes_to_read == 0", False), ("self._payload_bytes_to_read", True)], True) is not None]
+    if not inc:
+        chk.analysis_error("C12.nofrag0: the append of an incomplete frame's fragment was not found")
+    for c in inc:
+        guards = [i for i in ast.walk(fdn.node) if isinstance(i, ast.If) and i.lineno < c.lineno and PC.terminates(i.body) and any(t in norm.raw(i.test) for t in ("chunk_len == 0", "not chunk_len", "chunk_len <= 0", "f_start_pos == f_end_pos", "f_end_pos == f_start_pos", "f_end_pos <= f_start_pos"))]
+        joined_by_list = any(isinstance(i, ast.If) and norm.raw(i.test) in ("self._payload_fragments",) for i in ast.walk(fdn.node))
+        if guards or joined_by_list or PC.has_lit(PC.pc(c, raw=True), [("chunk_len", True), ("chunk_len > 0", True), ("chunk_len == 0", False), ("chunk_len <= 0", False), ("f_end_pos > f_start_pos", True), ("f_start_pos < f_end_pos", True)], True) is not None:
+            chk.ok("C12.nofrag0", c, "an incomplete frame's fragment is stored only if the read brought payload bytes")
+        else:
+            chk.violation("C12.nofrag0", c, K.short(c, 60), "no append of an empty slice (or the join path chosen by `if self._payload_fragments`)",
+                          "a read that ends exactly after the frame header (or mask) stores b'' in _payload_fragments; the frame then completes on the single-chunk path, which never clears the list: every such message leaks one entry, and after max_fragments of them the reader pauses the transport for good")
     # ---- C12.latch ---------------------------------------------------------------------------------------------------
     fdd = repo.func(MOD, f"{WR}.feed_data")
     gg = cfg_of(fdd.node)
